@@ -81,6 +81,36 @@ unsafe fn galloc(l: Layout, mode: usize, zeroed: bool) -> *mut u8 {
         REFUSED.fetch_add(1, SeqCst);
         REFUSED_SIZE.store(l.size(), SeqCst);
         LIVE_AT_REFUSAL.store(LIVE_BYTES.load(SeqCst), SeqCst);
+        // tell the parent without allocating: "refused=<size>,<live bytes>,<zeroed>"
+        let mut buf = [0u8; 80];
+        let mut n = 0;
+        for &b in b"refused=" {
+            buf[n] = b;
+            n += 1;
+        }
+        for (i, v) in [l.size(), LIVE_BYTES.load(SeqCst), zeroed as usize].into_iter().enumerate() {
+            if i > 0 {
+                buf[n] = b',';
+                n += 1;
+            }
+            let mut digits = [0u8; 24];
+            let mut d = 0;
+            let mut v = v;
+            loop {
+                digits[d] = b'0' + (v % 10) as u8;
+                d += 1;
+                v /= 10;
+                if v == 0 {
+                    break;
+                }
+            }
+            while d > 0 {
+                d -= 1;
+                buf[n] = digits[d];
+                n += 1;
+            }
+        }
+        crate::child::log_note(std::str::from_utf8_unchecked(&buf[..n]));
         return std::ptr::null_mut();
     }
     let size = l.size().max(1);
